@@ -98,4 +98,64 @@ theorem LinInv.mop {vals : Nat → Nat} {s : State} {t : Nat} {fr fr' : Frame} {
     · exact ⟨cur, rfl, fun b => by rw [hval]; exact hc b⟩
     · exact ⟨cur, by simp [replay, applyEv, hc], fun b => by rw [hval]; exact hc b⟩
 
+theorem LinInv.step {vals : Nat → Nat} {s s' : State} {t : Nat} (h : LinInv vals s) (hL : LockInv s)
+    (hV : VerInv s) (hC : Checked s) (hs : step prog s t = some s') : LinInv vals s' := by
+  have hk := step_kind hs
+  cases hk with
+  | start op more hst htd => exact h.quiet (by simp) (fun a => rfl)
+  | finish fr hst hr hd => exact h.quiet (by simp) (fun a => rfl)
+  | popOk fr par rest' v hst hr hd hv => exact h.quiet rfl (fun a => by rw [setTop_noatom])
+  | popFail fr par rest' hst hr hd hv => exact h.failedEv t _ rfl (fun a => by rw [setTop_noatom])
+  | cbApp fr rest a f hst hnr hm hop => exact h.quiet rfl (fun a => by rw [setTop_noatom])
+  | cbFail fr rest a hst hnr hm hop => exact h.failedEv t _ rfl (fun a => by rw [setTop_noatom])
+  | cbDeref fr rest a b hst hnr hm hop =>
+    exact h.quiet rfl (fun a => congrArg AtomS.val (setTop_noatom s t (Frame.new (.deref b)) (fr :: rest) [] a))
+  | cbSwap fr rest a b g hst hnr hm hop =>
+    exact h.quiet rfl (fun a => congrArg AtomS.val (setTop_noatom s t (Frame.new (.swap b g)) (fr :: rest) [] a))
+  | defer fr rest d ds fr1 A' hst hr hd hex =>
+    refine h.quiet rfl (fun a => ?_)
+    by_cases hv : ((s.setTop t { fr1 with pc := fr.pc } rest A' []).atoms a).val = (s.atoms a).val
+    · exact hv
+    · have hw := step_writes_locked hL hs a (Or.inl hv)
+      -- a deferred call is an unlock: it does not write
+      exfalso
+      have hopa : ({ fr1 with pc := fr.pc } : Frame).op.atom = fr.op.atom := by
+        have := (execM_eff hex).1; simp at this; simp [this]
+      obtain ⟨-, d2, -⟩ := execM_data hex
+      have hwf := hL.wf t
+      rw [hst] at hwf
+      obtain ⟨-, hdd⟩ := returning_defers hwf.1 hr hd
+      have n1 : d ≠ .write .val := by rcases hdd with h | h <;> rw [h] <;> simp
+      by_cases ha : a = fr.op.atom
+      · subst ha; rw [setTop_atoms_eq _ _ _ _ _ _ hopa, d2 n1] at hv; exact hv rfl
+      · rw [setTop_atoms_ne _ _ _ _ _ _ hopa ha] at hv; exact hv rfl
+  | mop fr rest m fr' A' hst hnr hm hcb hex => exact h.mop hL hV hC hst hnr hm hex
+
+/-- the three invariants together -/
+structure AtomInv (vals : Nat → Nat) (s : State) : Prop where
+  lock : LockInv s
+  ver : VerInv s
+  chk : Checked s
+  lin : LinInv vals s
+
+theorem AtomInv.init (progs : List (List AOp)) (vals : Nat → Nat) : AtomInv vals (init progs vals) :=
+  ⟨LockInv.init progs vals, VerInv.init progs vals,
+   by intro t top rest hst; simp [Conc.init] at hst,
+   ⟨vals, rfl, fun a => rfl⟩⟩
+
+theorem AtomInv.step {vals s s' t} (h : AtomInv vals s) (hs : step prog s t = some s') : AtomInv vals s' :=
+  ⟨h.lock.step hs, h.ver.step h.lock hs, h.chk.step h.lock hs, h.lin.step h.lock h.ver h.chk hs⟩
+
+theorem AtomInv.run {vals sched s s'} (h : AtomInv vals s) (hr : run prog sched s = some s') : AtomInv vals s' := by
+  induction sched generalizing s with
+  | nil => simp [Conc.run] at hr; subst hr; exact h
+  | cons t ts ih =>
+    simp only [Conc.run, Option.bind_eq_some_iff] at hr
+    obtain ⟨s1, h1, h2⟩ := hr
+    exact ih (h.step h1) h2
+
+theorem atom_invariant {progs vals s} (hr : Reachable progs vals s) : AtomInv vals s := by
+  obtain ⟨sched, h⟩ := hr
+  exact (AtomInv.init progs vals).run h
+
 end LispModel.Proofs.ConcAtom
